@@ -551,14 +551,13 @@ theorem restoreLinks_pres (fuel : Nat) (must push : Bool) (pre : S) (res : List 
 theorem restoreComp_pres (fuel : Nat) (pre st : S) (C : Comp) (h : I st) :
     I (restoreComp P fuel pre st C).1 := by
   unfold restoreComp
-  simp only
   have h1 := restoreConns_pres hp st C.resOut
-    (if P.cfg.revIter then (strings pre C.ins).reverse else strings pre C.ins) h
+    (if P.cfg.revIter then (saved P pre C).reverse else saved P pre C) h
   split
   · rename_i st1 e heq; rw [heq] at h1; exact h1
   · rename_i st1 heq
     rw [heq] at h1
-    have h2 := restoreLinks_pres hp fuel true P.cfg.pushIn pre C.resIn st1 C.mins h1
+    have h2 := restoreLinks_pres hp fuel P.cfg.allIn P.cfg.pushIn pre C.resIn st1 C.mins h1
     split
     · rename_i st2 e heq2; rw [heq2] at h2; exact h2
     · rename_i st2 heq2; rw [heq2] at h2
@@ -1315,14 +1314,13 @@ theorem restoreConns_frame (P : Params) (st : S) (res l : List (Nat × Nat)) :
 theorem restoreComp_rtframe (P : Params) (fuel : Nat) (pre st : S) (C : Comp) :
     RtFrame st (restoreComp P fuel pre st C).1 := by
   unfold restoreComp
-  simp only
   have h1 := (restoreConns_frame P st C.resOut
-    (if P.cfg.revIter then (strings pre C.ins).reverse else strings pre C.ins)).1
+    (if P.cfg.revIter then (saved P pre C).reverse else saved P pre C)).1
   split
   · rename_i st1 e heq; rw [heq] at h1; exact h1
   · rename_i st1 heq
     rw [heq] at h1
-    have h2 := restoreLinks_rtframe P fuel true P.cfg.pushIn pre C.resIn st1 C.mins
+    have h2 := restoreLinks_rtframe P fuel P.cfg.allIn P.cfg.pushIn pre C.resIn st1 C.mins
     split
     · rename_i st2 e heq2; rw [heq2] at h2; exact h1.trans h2
     · rename_i st2 heq2
@@ -1360,14 +1358,13 @@ theorem restoreAll_val (P : Params) (fuel : Nat) (pre st : S) (cs : List Comp)
     unfold restoreAll
     have h1 : (restoreComp P fuel pre st C).1.val = st.val := by
       unfold restoreComp
-      simp only
       have c1 := (restoreConns_frame P st C.resOut
-        (if P.cfg.revIter then (strings pre C.ins).reverse else strings pre C.ins)).2.1
+        (if P.cfg.revIter then (saved P pre C).reverse else saved P pre C)).2.1
       split
       · rename_i st1 e heq; rw [heq] at c1; exact c1
       · rename_i st1 heq
         rw [heq] at c1
-        have c2 := restoreLinks_val P fuel true pre C.resIn st1 C.mins
+        have c2 := restoreLinks_val P fuel P.cfg.allIn pre C.resIn st1 C.mins
         rw [hin]
         split
         · rename_i st2 e heq2; rw [heq2] at c2; exact c2.trans c1
@@ -1388,14 +1385,13 @@ theorem restoreAll_recv (P : Params) (fuel : Nat) (pre st : S) (cs : List Comp) 
     unfold restoreAll
     have h1 : (restoreComp P fuel pre st C).1.recv x = st.recv x := by
       unfold restoreComp
-      simp only
       have c1 := (restoreConns_frame P st C.resOut
-        (if P.cfg.revIter then (strings pre C.ins).reverse else strings pre C.ins)).2.2
+        (if P.cfg.revIter then (saved P pre C).reverse else saved P pre C)).2.2
       split
       · rename_i st1 e heq; rw [heq] at c1; rw [c1]
       · rename_i st1 heq
         rw [heq] at c1
-        have c2 := restoreLinks_recv P fuel true P.cfg.pushIn pre C.resIn st1 C.mins x hx
+        have c2 := restoreLinks_recv P fuel P.cfg.allIn P.cfg.pushIn pre C.resIn st1 C.mins x hx
         split
         · rename_i st2 e heq2; rw [heq2] at c2; rw [c2, c1]
         · rename_i st2 heq2
@@ -1467,15 +1463,14 @@ theorem restoreAll_noNew (P : Params) (fuel : Nat) (pre : S) (V : Nat → Val) (
     unfold restoreAll
     have h1 : NoNew V (restoreComp P fuel pre st C).1 := by
       unfold restoreComp
-      simp only
       have c1 := (restoreConns_frame P st C.resOut
-        (if P.cfg.revIter then (strings pre C.ins).reverse else strings pre C.ins)).2.1
+        (if P.cfg.revIter then (saved P pre C).reverse else saved P pre C)).2.1
       split
       · rename_i st1 e heq; rw [heq] at c1; intro c; rw [c1]; exact h c
       · rename_i st1 heq
         rw [heq] at c1
         have hs1 : NoNew V st1 := by intro c; rw [c1]; exact h c
-        have c2 := restoreLinks_noNew P fuel true P.cfg.pushIn pre C.resIn V st1 C.mins hs1
+        have c2 := restoreLinks_noNew P fuel P.cfg.allIn P.cfg.pushIn pre C.resIn V st1 C.mins hs1
         split
         · rename_i st2 e heq2; rw [heq2] at c2; exact c2
         · rename_i st2 heq2
@@ -1649,6 +1644,20 @@ theorem strings_reverse (pre : S) (dom : List Nat) :
 
 def allIns (cs : List Comp) : List Nat := cs.flatMap (·.ins)
 
+/-- nothing is filtered out when every upstream is an output of a child of the same composite -/
+theorem saved_eq (P : Params) (pre : S) (C : Comp) (h : ∀ i ∈ C.ins, ∀ o ∈ pre.conns i, o ∈ C.kouts) :
+    saved P pre C = strings pre C.ins := by
+  unfold saved
+  split
+  · refine List.filter_eq_self.mpr ?_
+    intro p hp
+    unfold strings at hp
+    obtain ⟨i, hi, hp⟩ := List.mem_flatMap.mp hp
+    obtain ⟨o, ho, hpo⟩ := List.mem_map.mp hp
+    subst hpo
+    simpa using h i hi o ho
+  · rfl
+
 /-- the whole restoration with `revIter`: every input of every composite gets its stored list
 back, in the stored order; `A` is any set of input channels closed under "is not an upstream" -/
 theorem restoreAll_order (P : Params) (fuel : Nat) (pre : S) (hrev : P.cfg.revIter = true) (A : List Nat)
@@ -1656,6 +1665,7 @@ theorem restoreAll_order (P : Params) (fuel : Nat) (pre : S) (hrev : P.cfg.revIt
     (cs : List Comp) (st st' : S)
     (hsub : ∀ i ∈ allIns cs, i ∈ A) (hnodup : (allIns cs).Nodup)
     (hres : ∀ C ∈ cs, ∀ i ∈ C.ins, ∀ o ∈ pre.conns i, C.resOut.lookup o = some o)
+    (hown : ∀ C ∈ cs, ∀ i ∈ C.ins, ∀ o ∈ pre.conns i, o ∈ C.kouts)
     (hempty : ∀ i ∈ allIns cs, st.conns i = [])
     (h : restoreAll P fuel pre st cs = (st', none)) :
     (∀ i ∈ allIns cs, st'.conns i = pre.conns i) ∧
@@ -1674,6 +1684,7 @@ theorem restoreAll_order (P : Params) (fuel : Nat) (pre : S) (hrev : P.cfg.revIt
     · rename_i st1 heq
       -- the composite `C`
       unfold restoreComp at heq
+      rw [saved_eq P pre C (hown C (by simp))] at heq
       simp only [hrev, if_true] at heq
       split at heq
       · simp at heq
@@ -1716,11 +1727,11 @@ theorem restoreAll_order (P : Params) (fuel : Nat) (pre : S) (hrev : P.cfg.revIt
           split at heq
           · rename_i sb e heqb
             simp only [Prod.mk.injEq] at heq
-            have := restoreLinks_conns P fuel true P.cfg.pushIn pre C.resIn sa C.mins
+            have := restoreLinks_conns P fuel P.cfg.allIn P.cfg.pushIn pre C.resIn sa C.mins
             rw [heqb] at this
             rw [← heq.1]; exact this
           · rename_i sb heqb
-            have c1 := restoreLinks_conns P fuel true P.cfg.pushIn pre C.resIn sa C.mins
+            have c1 := restoreLinks_conns P fuel P.cfg.allIn P.cfg.pushIn pre C.resIn sa C.mins
             rw [heqb] at c1
             have c2 := restoreLinks_conns P fuel false P.cfg.pushOut pre C.resMOut sb C.couts
             rw [heq] at c2
@@ -1728,6 +1739,7 @@ theorem restoreAll_order (P : Params) (fuel : Nat) (pre : S) (hrev : P.cfg.revIt
             rw [c2, c1]
         have ih' := ih st1 (fun i hi => hsub i (List.mem_append_right _ hi)) hnd2.2.1
           (fun D hD => hres D (List.mem_cons_of_mem _ hD))
+          (fun D hD => hown D (List.mem_cons_of_mem _ hD))
           (fun i hi => by
             rw [hst1, hoa i (hsub i (List.mem_append_right _ hi))
               (fun hc => hnd2.2.2 i hc i hi rfl)]
